@@ -4,7 +4,12 @@
 (* of all read APIs taken right after it; the step is accepted only if every answer is the Abs answer:        *)
 (*   g1, g2   get() of every key, twice (slow path, then cache fast path)        = AbsGet                     *)
 (*   ex       exists()                                                           = Live                        *)
-(*   keys, pfx  keys(), keysWithPrefix(): exactly the live keys (no duplicates, no foreign key: extra = 0)      *)
+(*   keys     keys(): exactly the live keys (no duplicates, no foreign key: extra = 0)                          *)
+(*   pfxm, pfxn  keysWithPrefix(p) for EVERY prefix p of the execution's key universe ku (KvAbs: key ids and     *)
+(*            prefix ids -> byte strings, with embedded NUL bytes, keys that are prefixes of each other, prefixes *)
+(*            longer than keys): the set of returned key ids as a bit mask and the number of returned strings =   *)
+(*            exactly the live keys whose BYTES start with the prefix's bytes.  Begin carries the driver's tables *)
+(*            (lengths and leading bytes of its keys, its prefixes): they must be the tables of KvAbs.             *)
 (*   size     size()  = number of live keys        gb   getBatch(all keys) = AbsGet        ttl  = AbsTtl       *)
 (* Values are ids of byte strings (a value that is not byte-identical to what was stored is logged as -1).     *)
 (* close / open: the map and the clock are untouched - expiry is absolute, a restart changes nothing            *)
@@ -17,22 +22,32 @@
 EXTENDS TraceBase, KvAbs
 
 CONSTANT NK
-VARIABLES m, now, bl, up, snaps
-vars == <<l, m, now, bl, up, snaps>>
+VARIABLES m, now, bl, up, snaps, ku
+vars == <<l, m, now, bl, up, snaps, ku>>
 
 Keys == 1..NK
 Empty == [k \in Keys |-> NoKey]
-PrefixKeys == {1, 2}
-OpOf(e) == [op |-> e.op, k |-> e.k, v |-> e.v, d |-> e.d, t |-> e.t, ks |-> e.ks, vs |-> e.vs]
+OpOf(e) == [op |-> e.op, k |-> e.k, v |-> e.v, d |-> e.d, t |-> e.t, ks |-> e.ks, vs |-> e.vs, u |-> ku]
 B2I(b) == IF b THEN 1 ELSE 0
 
-Init == l = 1 /\ m = Empty /\ now = 0 /\ bl = FALSE /\ up = FALSE /\ snaps = <<>>
+RECURSIVE Mask(_)
+Mask(ks) == IF ks = {} THEN 0 ELSE LET k == CHOOSE x \in ks : TRUE IN 2 ^ (k - 1) + Mask(ks \ {k})
+(* the driver's byte tables: 4 slots per key / prefix, the leading bytes, -1 = past the end *)
+Slot(s, i) == IF i <= s.n THEN ByteAt(s, i) ELSE -1
+TablesOk(e) == /\ Len(e.klen) = NK /\ Len(e.kb) = 4 * NK /\ Len(e.plen) = NPfx /\ Len(e.pb) = 4 * NPfx
+               /\ \A k \in Keys : /\ e.klen[k] = KeyStr(e.ku, k).n
+                                  /\ \A i \in 1..4 : e.kb[4 * (k - 1) + i] = Slot(KeyStr(e.ku, k), i)
+               /\ \A p \in 1..NPfx : /\ e.plen[p] = PfxStr(e.ku, p).n /\ e.plen[p] <= 4
+                                     /\ \A i \in 1..4 : e.pb[4 * (p - 1) + i] = Slot(PfxStr(e.ku, p), i)
 
-EvBegin == /\ IsEv("Begin") /\ Ev.nk = NK
+Init == l = 1 /\ m = Empty /\ now = 0 /\ bl = FALSE /\ up = FALSE /\ snaps = <<>> /\ ku = 0
+
+EvBegin == /\ IsEv("Begin") /\ Ev.nk = NK /\ Ev.ku \in {0, 1} /\ TablesOk(Ev)
+           /\ ku' = Ev.ku
            /\ m' = Empty /\ now' = 0 /\ bl' \in BOOLEAN /\ up' = TRUE
            /\ snaps' = <<[m |-> Empty, now |-> 0]>>
-EvReset == IsEv("Reset") /\ m' = Empty /\ now' = 0 /\ bl' = FALSE /\ up' = FALSE /\ snaps' = <<>>
-EvEnd   == IsEv("End") /\ UNCHANGED <<m, now, bl, up, snaps>>
+EvReset == IsEv("Reset") /\ m' = Empty /\ now' = 0 /\ bl' = FALSE /\ up' = FALSE /\ snaps' = <<>> /\ ku' = 0
+EvEnd   == IsEv("End") /\ UNCHANGED <<m, now, bl, up, snaps, ku>>
 
 ObsOk(e, mm, t) ==
     LET live == AbsKeys(mm, t, bl) IN
@@ -43,7 +58,9 @@ ObsOk(e, mm, t) ==
                        /\ e.ex[k] = B2I(k \in live)
                        /\ e.ttl[k] = AbsTtl(mm, k, t, bl)
     /\ SeqRange(e.keys) = live /\ Len(e.keys) = Cardinality(live)
-    /\ SeqRange(e.pfx) = live \cap PrefixKeys /\ Len(e.pfx) = Cardinality(live \cap PrefixKeys)
+    /\ Len(e.pfxm) = NPfx /\ Len(e.pfxn) = NPfx
+    /\ \A p \in 1..NPfx : LET want == AbsPfx(mm, ku, p, t, bl) IN
+                             e.pfxm[p] = Mask(want) /\ e.pfxn[p] = Cardinality(want)
     /\ e.size = Cardinality(live)
     /\ e.extra = 0
 
@@ -54,19 +71,20 @@ EvStep ==
            t2 == IF o.op = "tick" THEN now + o.d ELSE now IN
        /\ (o.op \notin {"tick", "open"}) => up
        /\ (o.op = "open") => ~up
+       /\ (o.op = "rmp") => o.k \in 1..NPfx
        /\ up' = (IF o.op = "close" THEN FALSE ELSE IF o.op = "open" THEN TRUE ELSE up)
        /\ Ev.up = up'
        /\ m' = m2 /\ now' = t2
        /\ Ev.up => ObsOk(Ev, m2, t2)
        /\ snaps' = Append(snaps, [m |-> m2, now |-> t2])
-    /\ UNCHANGED bl
+    /\ UNCHANGED <<bl, ku>>
 
 Ans(api, s, k) == CASE api = 0 -> AbsGet(s.m, k, s.now, bl)
                     [] api = 1 -> B2I(Live(s.m, k, s.now, bl))
                     [] OTHER   -> AbsTtl(s.m, k, s.now, bl)
 EvR == /\ IsEv("R")
        /\ \E i \in Ev.lo..Ev.hi : i + 1 <= Len(snaps) /\ Ev.r = Ans(Ev.api, snaps[i + 1], Ev.k)
-       /\ UNCHANGED <<m, now, bl, up, snaps>>
+       /\ UNCHANGED <<m, now, bl, up, snaps, ku>>
 
 Next == EvBegin \/ EvReset \/ EvEnd \/ EvStep \/ EvR
 Spec == Init /\ [][Next]_vars
